@@ -1,5 +1,6 @@
 import os
 from vp.api import Q, Mutant
+from vp.seqir import seqir
 TITLE = "Info registries return what was set"
 U = "parsec/class/info.c"
 LINK = ["repo:" + U, "repo:parsec/class/parsec_object.c", "repo:parsec/class/parsec_list.c", "repo:parsec/class/parsec_rwlock.c"]
@@ -46,6 +47,20 @@ def queries(ctx):
                     unwind=8, unwindset=["expand_array.0:11", "memset.0:%d" % max(41, 8 * (nb0 + nb1 + more) + 1)], checks=["bounds", "pointer"],
                     object_bits=10, kf=(KF_MEM if in_class else None), units=UNITS, timeout=900, tiers=tiers,
                     info=dict(ioa_info, bounds={"infos": nb0 + nb1 + more, "growths": 1 + more})))
+    SN = {1: "get_get", 2: "get_set", 3: "get_tas", 4: "get_resize", 5: "set_tas_resize"}
+    for sc in (1, 2, 3, 4, 5):
+        for R in ((2, 3) if ctx.thorough else (2,)):
+            tiers = ("quick", "thorough") if (R == 2 and sc in (1, 3)) else ("thorough",)
+            if ctx.tier not in tiers:
+                continue
+            qs.append(Q("s_%s_r%d" % (SN[sc], R), [], defs=["SCEN=%d" % sc], engine="S", units=[U, "parsec/class/info.h", "parsec/class/parsec_rwlock.c", "parsec/class/list.h"],
+                        gen=seqir(["hs.c", "repo:parsec/class/parsec_rwlock.c", "repo:parsec/class/parsec_list.c"], threads=["thread0", "thread1"], rounds=R, drain=True, benign=["nanosleep"]),
+                        unwind=8, timeout=2400, slow=True, tiers=tiers,
+                        info={"symbolic": ["schedule: every SC interleaving with <= %d scheduling slots per thread, then deterministic drain" % R],
+                              "functions": ["parsec_info_get", "parsec_info_set", "parsec_info_test_and_set", "parsec_ioa_resize_and_rdlock", "parsec_info_lookup_by_iid",
+                                            "parsec_atomic_rwlock_rdlock/rdunlock/wrlock/wrunlock"],
+                              "stubs": ["info constructor/destructor callbacks (harness, counting; indirect calls = atomic)", "object-system class tables = vp_objstub.h (static arrays)", "nanosleep (benign)"],
+                              "bounds": {"threads": 2, "rounds": R, "operations": "1 per thread"}}))
     if ctx.thorough:
         qs.append(Q("reg_history_3_2", ["reg.c"] + LINK, defs=["N0=3", "N1=2"], unwind=9, unwindset=["expand_array.0:11"], checks=["bounds", "pointer"],
                     object_bits=10, kf=KF_REG, units=UNITS, timeout=2400, tiers=("thorough",), slow=True,
